@@ -42,8 +42,8 @@ def claim(pid, text, note="", residual=(), assumed=(), pkgs=None, bounded=None, 
         d["explanation"] = explanation
     CLAIMED[pid] = d
 
-claim("C05", "Proof of buildErrorExtra's type-selection contract for every dynamic error type: RpcError -> its Type, each typed framework error -> its wire name (each ErrorType method has its own proved contract), every other error value (foreign dynamic types included) -> RuntimeError; traceback and frames absent unless debug.",
-      "json.Marshal renders the struct it is given (assumed).", ["message passthrough (err.Error()) and JSON rendering", "the recover wrappers that build RuntimeError RpcErrors for panics are not under contract yet"])
+claim("C05", "Proof of buildErrorExtra's type-selection contract for every dynamic error type: RpcError -> its Type, each typed framework error -> its wire name (each ErrorType method has its own proved contract), every other error value (foreign dynamic types included) -> RuntimeError; traceback and frames absent unless debug; proof that each of the seven recovering literals around handler / Produce / Exchange calls (pipe and HTTP, unary, stream init, producer turn, exchange turn) turns a panic with any value into an error that is named RuntimeError; proof that writeErrorBatch hands the same error and debug flag to buildErrorExtra, carries its result under log_extra, and appends error_kind exactly when the error advertises a non-empty kind — with the kind of every implementation of errorKindCarrier in the package checked against the interface contract (refinement obligations <impl>/post#iface_...).",
+      "json.Marshal renders the struct it is given (assumed). Implementations of errorKindCarrier outside the package are not checked.", ["message text rendering (err.Error()) and JSON rendering", "that every dispatcher reports the recovered error through writeErrorBatch (C04/C16/C37 cover the unary, exchange and hook paths)"])
 claim("C08", "Proof, for all int64/time.Time inputs, of the scalar time codecs against a mathematical time model (nsOf): daysSinceEpoch is the floor UTC day for every representable date32, microsSinceMidnight is the exact microsecond of day, timestampToTime is the exact instant for every unit and every int64, plus round-trip lemmas at wire precision.",
       "time package model of trusted/stdlib.spec (Unix, UTC, Add exact, Sub saturating, Clock on UTC).", ["the reflect-driven struct walk, lists/maps/structs/decimals/enums/strings", "Arrow builders storing what they are given", "duration decode arm inside setFieldFromArrow (reflect function)"])
 claim("C10", "Proof that parseSemver yields the numeric major/minor of a canonical version (refusing parts that do not fit an int) and that checkProtocolVersion returns nil iff the version is present, canonical and numerically equal in major.minor to the server's; the directional message; panic-freedom of parseSemver; the regex lemma pinning semverRegex to the reference language; and, over every path of the three dispatching functions (serveOne on the pipe, handleUnary and handleStreamInit on HTTP), that the dispatch / parameter binding is reached only after Server.protocolVersionSet was read and, when it was set, checkProtocolVersion admitted the request's own declared version (value and presence of the metadata key); that a refusal answers with the gate's error (HTTP 400); that the __describe__ short-circuits (pipe and HTTP) run before the gate.",
